@@ -690,6 +690,228 @@ Proof.
     destruct (_ && _); cbn [entered_of]; try exact E; apply in_or_app; left; exact E.
 Qed.
 
+(* the receiver is never stuck: if a call is queued and none is waiting for its arguments, a doNextCall is scheduled *)
+Definition RInv (s : state) : Prop := inq s <> [] -> waiting s = [] -> evq s <> [].
+
+Definition receiver_part (s : state) := (inq s, waiting s, evq s).
+
+Lemma rinv_of_receiver s s' : receiver_part s' = receiver_part s -> RInv s -> RInv s'.
+Proof. unfold receiver_part, RInv. intros E I. inversion E as [[E1 E2 E3]]. rewrite E1, E2, E3. exact I. Qed.
+
+Lemma evq_put_nonempty (t : thunk) l : q_put evq_push t l <> [].
+Proof. destruct evq_push; cbn [q_put]; [destruct l|]; discriminate. Qed.
+
+Lemma do_next_rinv s : RInv (do_next s).
+Proof.
+  unfold do_next, blocked. rewrite hol_is_blocking.
+  destruct (waiting s) as [|x w] eqn:Ew; cbn [is_nil negb].
+  - rewrite inq_take. destruct (inq s) as [|[c r] rest] eqn:Ei.
+    + intros H; rewrite Ei in H; congruence.
+    + destruct r; unfold RInv, finish_call; cbn [inq waiting evq]; intros _ H.
+      * apply evq_put_nonempty.
+      * cbn in H. discriminate.
+      * apply evq_put_nonempty.
+  - intros _ H. rewrite Ew in H. discriminate.
+Qed.
+
+Lemma pump_receiver f : forall s, receiver_part (pump f s) = receiver_part s.
+Proof.
+  induction f as [|f IH]; intros s; cbn [pump]; [reflexivity|].
+  destruct (cur s); [reflexivity|]. destruct (q_take sendq_pop (sendq s)) as [[c rest]|]; [|reflexivity].
+  destruct (stalls c); [rewrite IH|]; reflexivity.
+Qed.
+
+Lemma thunks_rinv batch : forall s, batch <> [] -> RInv (fold_left run_thunk batch s).
+Proof.
+  intros s Hne. destruct (exists_last Hne) as [b [t ->]]. rewrite fold_left_app. cbn [fold_left].
+  destruct t; cbn [run_thunk]. apply do_next_rinv.
+Qed.
+
+Lemma step_rinv s o : RInv s -> RInv (step s o).
+Proof.
+  intros I. destruct o; cbn [step].
+  - apply (rinv_of_receiver s); [|exact I]. unfold issue.
+    match goal with |- context [if ?b then _ else _] => destruct b end; rewrite ?pump_receiver; reflexivity.
+  - apply (rinv_of_receiver s); [|exact I]. unfold release.
+    destruct (cur s) as [[c [|[|m]]]|]; rewrite ?pump_receiver; reflexivity.
+  - unfold deliver. destruct (wire s) as [|c w]; [exact I|].
+    destruct (cfate c); try (intros _ _; cbn [evq]; apply evq_put_nonempty).
+    apply (rinv_of_receiver s); [reflexivity | exact I].
+  - unfold gift_ready. destruct (find _ _) as [c|].
+    + intros _ _. unfold finish_call. cbn [evq]. apply evq_put_nonempty.
+    + unfold RInv. cbn [inq waiting evq]. intros H1 H2. apply I; [|exact H2].
+      intros E. rewrite E in H1. cbn in H1. congruence.
+  - unfold turn. destruct evq_is_fifo as [_ ->].
+    destruct (evq s) as [|t b] eqn:Ev.
+    + cbn [fold_left]. unfold RInv. cbn [inq waiting evq]. intros H1 H2. pose proof (I H1 H2) as H3. congruence.
+    + apply thunks_rinv. discriminate.
+Qed.
+
+Lemma run_from_rinv ops : forall s, RInv s -> RInv (fold_left step ops s).
+Proof. induction ops as [|o ops IH]; intros s I; cbn [fold_left]; [exact I|]. apply IH, step_rinv, I. Qed.
+
+Theorem receiver_never_stuck ops :
+  inq (run ops) <> [] -> waiting (run ops) = [] -> evq (run ops) <> [].
+Proof. apply (run_from_rinv ops init). intros H; cbn in H; congruence. Qed.
+
+(* ------------------------------------------------------------------ *)
+(* every reachable state can be settled: releasing the stalls, delivering the bytes, resolving the gifts and
+   running turns empties the whole pipeline *)
+
+Definition smeasure (s : state) : nat :=
+  match cur s with Some (_, n) => S n | None => 0 end + list_sum (map (fun c => S (stalls c)) (sendq s)).
+
+Lemma pump_measure f : forall s, cur s = None -> smeasure (pump f s) <= smeasure s.
+Proof.
+  induction f as [|f IH]; intros s Hc; cbn [pump]; [lia|]. rewrite Hc, sendq_take.
+  destruct (sendq s) as [|c rest] eqn:Eq; [lia|].
+  destruct (stalls c) eqn:Es.
+  - etransitivity; [apply IH; reflexivity|]. unfold smeasure. cbn [cur sendq]. rewrite Hc, Eq. cbn [map list_sum]. lia.
+  - unfold smeasure. cbn [cur sendq]. rewrite Hc, Eq. cbn [map list_sum]. rewrite Es. lia.
+Qed.
+
+Lemma release_measure s p : cur s = Some p -> smeasure (release s) < smeasure s.
+Proof.
+  intros Hc. unfold release. rewrite Hc. destruct p as [c [|[|m]]].
+  - eapply Nat.le_lt_trans; [apply pump_measure; reflexivity|]. unfold smeasure. cbn [cur sendq]. rewrite Hc. lia.
+  - eapply Nat.le_lt_trans; [apply pump_measure; reflexivity|]. unfold smeasure. cbn [cur sendq]. rewrite Hc. lia.
+  - unfold smeasure. cbn [cur sendq]. rewrite Hc. lia.
+Qed.
+
+Lemma drain_sender : forall n s, smeasure s <= n -> SInv s ->
+  exists k, cur (fold_left step (repeat StallRelease k) s) = None /\ sendq (fold_left step (repeat StallRelease k) s) = [].
+Proof.
+  induction n as [|n IH]; intros s Hm I.
+  - destruct (cur s) as [[c m]|] eqn:Ec; [unfold smeasure in Hm; rewrite Ec in Hm; lia|].
+    exists 0. cbn. split; [exact Ec | apply I; exact Ec].
+  - destruct (cur s) as [p|] eqn:Ec.
+    + destruct (IH (release s)) as [k Hk].
+      { pose proof (release_measure s p Ec). lia. }
+      { apply release_sinv; exact I. }
+      exists (S k). cbn [repeat fold_left step]. exact Hk.
+    + exists 0. cbn. split; [exact Ec | apply I; exact Ec].
+Qed.
+
+Lemma deliver_sender s : cur (deliver s) = cur s /\ sendq (deliver s) = sendq s /\ wire (deliver s) = tl (wire s).
+Proof. unfold deliver. destruct (wire s) as [|c w]; [auto|]. destruct (cfate c); auto. Qed.
+
+Lemma drain_wire : forall n s, List.length (wire s) <= n -> cur s = None -> sendq s = [] ->
+  exists k, let s' := fold_left step (repeat Deliver k) s in cur s' = None /\ sendq s' = [] /\ wire s' = [].
+Proof.
+  induction n as [|n IH]; intros s Hl Hc Hq.
+  - exists 0. cbn. destruct (wire s); [auto | cbn in Hl; lia].
+  - destruct (wire s) as [|c w] eqn:Ew; [exists 0; cbn; auto|].
+    destruct (deliver_sender s) as (E1 & E2 & E3).
+    destruct (IH (deliver s)) as [k Hk]; [rewrite E3, Ew; cbn in *; lia | congruence | congruence |].
+    exists (S k). cbn [repeat fold_left step]. exact Hk.
+Qed.
+
+Definition sw_part (s : state) := (cur s, sendq s, wire s).
+
+Lemma do_next_sw s : sw_part (do_next s) = sw_part s.
+Proof.
+  unfold do_next. destruct (blocked s); [reflexivity|].
+  destruct (q_take inq_pop (inq s)) as [[[c r] rest]|]; [|reflexivity]. destruct r; reflexivity.
+Qed.
+
+Lemma thunks_sw batch : forall s, sw_part (fold_left run_thunk batch s) = sw_part s.
+Proof.
+  induction batch as [|t b IH]; intros s; cbn [fold_left]; [reflexivity|].
+  rewrite IH. destruct t; apply do_next_sw.
+Qed.
+
+Definition rmeasure (s : state) : nat := 2 * List.length (inq s) + List.length (waiting s).
+
+Lemma do_next_measure s : rmeasure (do_next s) <= rmeasure s.
+Proof.
+  unfold do_next. destruct (blocked s); [lia|]. rewrite inq_take.
+  destruct (inq s) as [|[c r] rest] eqn:Ei; [lia|].
+  destruct r; unfold rmeasure, finish_call; cbn [inq waiting]; rewrite ?Ei, ?app_length; cbn [List.length]; lia.
+Qed.
+
+Lemma do_next_measure_strict s : waiting s = [] -> inq s <> [] -> rmeasure (do_next s) < rmeasure s.
+Proof.
+  intros Ew Hi. unfold do_next, blocked. rewrite hol_is_blocking, Ew. cbn [is_nil negb]. rewrite inq_take.
+  destruct (inq s) as [|[c r] rest] eqn:Ei; [congruence|].
+  destruct r; unfold rmeasure, finish_call; cbn [inq waiting]; rewrite ?Ei, ?Ew, ?app_length; cbn [List.length]; lia.
+Qed.
+
+Lemma thunks_measure batch : forall s, rmeasure (fold_left run_thunk batch s) <= rmeasure s.
+Proof.
+  induction batch as [|t b IH]; intros s; cbn [fold_left]; [lia|].
+  etransitivity; [apply IH|]. destruct t; apply do_next_measure.
+Qed.
+
+Lemma turn_measure s : waiting s = [] -> inq s <> [] -> evq s <> [] -> rmeasure (turn s) < rmeasure s.
+Proof.
+  intros Ew Hi He. unfold turn. destruct evq_is_fifo as [_ ->].
+  destruct (evq s) as [|t b]; [congruence|]. cbn [fold_left]. destruct t; cbn [run_thunk].
+  eapply Nat.le_lt_trans; [apply thunks_measure|].
+  set (s0 := mk _ _ _ _ _ _ _ _).
+  assert (E : rmeasure s = rmeasure s0) by reflexivity. rewrite E.
+  apply do_next_measure_strict; subst s0; cbn [waiting inq]; assumption.
+Qed.
+
+Lemma gift_measure s x : waiting s = [x] -> rmeasure (gift_ready (cid x) true s) < rmeasure s.
+Proof.
+  intros Ew. unfold gift_ready. rewrite Ew. cbn [find filter]. rewrite Nat.eqb_refl. cbn [negb].
+  unfold rmeasure, finish_call. cbn [inq waiting]. rewrite Ew. cbn [List.length]. lia.
+Qed.
+
+Definition settle_op (o : op) : Prop :=
+  match o with Issue _ _ => False | GiftReady _ false => False | _ => True end.
+
+Lemma drain_receiver : forall n s, rmeasure s <= n -> AInv (abs s) -> RInv s ->
+  exists more, Forall settle_op more /\
+    inq (fold_left step more s) = [] /\ waiting (fold_left step more s) = [] /\
+    sw_part (fold_left step more s) = sw_part s.
+Proof.
+  induction n as [|n IH]; intros s Hm I R.
+  - exists []. cbn [fold_left]. unfold rmeasure in Hm.
+    destruct (inq s); [|cbn in Hm; lia]. destruct (waiting s); [|cbn in Hm; lia]. auto.
+  - destruct (wait_len s I) as [Ew|[x Ew]].
+    + destruct (inq s) as [|e rest] eqn:Ei; [exists []; cbn [fold_left]; auto|].
+      assert (Hi : inq s <> []) by (rewrite Ei; discriminate).
+      pose proof (R Hi Ew) as He.
+      destruct (IH (turn s)) as (more & Hf & H1 & H2 & H3).
+      { pose proof (turn_measure s Ew Hi He). lia. }
+      { eapply effs_preserves; [apply (step_effs s Turn I) | exact I]. }
+      { apply (step_rinv s Turn R). }
+      exists (Turn :: more). cbn [fold_left step]. split; [constructor; [exact I0|exact Hf]|].
+      split; [exact H1|]. split; [exact H2|]. rewrite H3. unfold turn. rewrite thunks_sw. reflexivity.
+    + destruct (IH (gift_ready (cid x) true s)) as (more & Hf & H1 & H2 & H3).
+      { pose proof (gift_measure s x Ew). lia. }
+      { eapply effs_preserves; [apply (step_effs s (GiftReady (cid x) true) I) | exact I]. }
+      { apply (step_rinv s (GiftReady (cid x) true) R). }
+      exists (GiftReady (cid x) true :: more). cbn [fold_left step]. split; [constructor; [exact I0|exact Hf]|].
+      split; [exact H1|]. split; [exact H2|]. rewrite H3.
+      unfold gift_ready. rewrite Ew. cbn [find]. rewrite Nat.eqb_refl. reflexivity.
+Qed.
+
+Lemma forall_repeat {A} (P : A -> Prop) x k : P x -> Forall P (repeat x k).
+Proof. intros H. induction k; cbn [repeat]; constructor; assumption. Qed.
+
+Theorem can_always_settle ops :
+  exists more, Forall settle_op more /\ pipeline (run (ops ++ more)) = [].
+Proof.
+  pose (s0 := run ops).
+  destruct (drain_sender (smeasure s0) s0 (le_n _)) as [k1 [Hc1 Hq1]].
+  { apply (run_from_sinv ops init). intros _; reflexivity. }
+  set (s1 := fold_left step (repeat StallRelease k1) s0) in *.
+  destruct (drain_wire (List.length (wire s1)) s1 (le_n _) Hc1 Hq1) as [k2 (Hc2 & Hq2 & Hw2)].
+  set (s2 := fold_left step (repeat Deliver k2) s1) in *.
+  assert (I2 : AInv (abs s2)) by (apply run_from_inv, run_from_inv, run_inv).
+  assert (R2 : RInv s2).
+  { apply run_from_rinv, run_from_rinv. apply (run_from_rinv ops init). intros H; cbn in H; congruence. }
+  destruct (drain_receiver (rmeasure s2) s2 (le_n _) I2 R2) as (more & Hf & Hi & Hw & Hsw).
+  exists (repeat StallRelease k1 ++ repeat Deliver k2 ++ more). split.
+  - apply Forall_app; split; [apply forall_repeat; exact I|].
+    apply Forall_app; split; [apply forall_repeat; exact I | exact Hf].
+  - unfold run. rewrite !fold_left_app. fold (run ops). fold s0. fold s1. fold s2.
+    unfold pipeline, inq_ids, upstream, cur_ids. rewrite Hi, Hw.
+    unfold sw_part in Hsw. inversion Hsw as [[E1 E2 E3]]. rewrite E1, E2, E3, Hc2, Hq2, Hw2. reflexivity.
+Qed.
+
 (* ------------------------------------------------------------------ *)
 (* LocalReferenceable: order is given by the eventual queue alone *)
 
